@@ -370,3 +370,19 @@ void enumerate(const Emit& emit, const std::string& tier) {
     }
   }
 }
+
+// fixed finding 5317901: get() read the payload after recycling the record (replayed as a schedule: replays/regress/C19-*.json)
+void regressions() {
+  // N=1, one block cached; T0: get, preempted after its second CAS; T1: insert(1), get
+  std::vector<Program> progs(2);
+  progs[0].ops.push_back(Op{false, 0, false, 0});
+  progs[1].ops.push_back(Op{true, 1, false, 0}); progs[1].ops.push_back(Op{false, 0, false, 0});
+  for (long pos = 0; pos < 12; pos++) {
+    for (auto& p : progs) for (auto& o : p.ops) { o.ok = false; o.got = 0; }
+    c19::Sched sc; sc.preempt.emplace_back(pos, 1);
+    std::vector<int> drained;
+    run_concurrent<1>(progs, 1, sc, drained);
+    std::vector<const Op*> all; for (auto& p : progs) for (auto& o : p.ops) all.push_back(&o);
+    check_history(1, 1, all, drained, fmt("regression: preemption of T0's get at point %ld", pos));
+  }
+}
